@@ -225,7 +225,7 @@ def gen_reusable(seed, family="reuse"):
         users.append(sc)
     scen["users"] = users
     scen["sched"] = {"p_timeout": (rnd.choice([0.02, 0.1, 0.3]) if use_timeout else 0.0),
-                     "p_crash": (rnd.choice([0.0, 0.0, 0.01]) if family == "reusecrash" else 0.0), "max_crashes": 1}
+                     "p_crash": (rnd.choice([0.0, 0.01, 0.02]) if family == "reusecrash" else 0.0), "max_crashes": 1}
     return scen
 
 
